@@ -21,9 +21,9 @@ theorem isRunningObj_frame (s : St) (r : Ref) (o : PObj) :
     · simp [St.setObj]
     · split <;> simp [St.setObj]
 
-theorem raiseIfReused_frame (s : St) (r : Ref) (o : PObj) :
-    (raiseIfReused s r o).1.gens = s.gens ∧ (raiseIfReused s r o).1.k = s.k
-      ∧ (raiseIfReused s r o).1.pmap = s.pmap := by
+theorem raiseIfReused_frame (cfg : Cfg) (s : St) (r : Ref) (o : PObj) :
+    (raiseIfReused cfg s r o).1.gens = s.gens ∧ (raiseIfReused cfg s r o).1.k = s.k
+      ∧ (raiseIfReused cfg s r o).1.pmap = s.pmap := by
   unfold raiseIfReused
   split
   · simp
@@ -47,8 +47,8 @@ theorem asDictLoop_frame (cfg : Cfg) (r : Ref) (pid : Nat) (ls : List String) :
     · split
       · simp
       · rename_i o _
-        have hf := raiseIfReused_frame s r o
-        cases hr : raiseIfReused s r o with
+        have hf := raiseIfReused_frame cfg s r o
+        cases hr : raiseIfReused cfg s r o with
         | mk s1 raised =>
           rw [hr] at hf
           simp only at hf ⊢
